@@ -82,3 +82,58 @@ func orSetFamily(c *ev.Ctx) {
 		}
 	}
 }
+
+type paddedNameCase struct {
+	Schema string `json:"schema"`
+	Opt    bool   `json:"keys_optional_by_default,omitempty"`
+}
+
+// paddedNames: "every rule is known": a quoted rule name is the name between its quotes. The names of the
+// rules that fit the example, spelled with a blank before / behind / on both sides (space, tab) inside the
+// quotes, are NOT known rules, in an annotation and inside an or rule-set; the exact quoted name is the
+// accepted control.
+func paddedNames(c *ev.Ctx) {
+	type row struct{ example, name, value string }
+	rows := []row{
+		{"1", "min", "0"}, {"1", "max", "9"}, {`"ab"`, "minLength", "1"}, {`"ab"`, "maxLength", "9"}, {`"ab"`, "regex", `"a"`},
+		{"1", "type", `"integer"`}, {"1", "nullable", "true"}, {"1", "const", "true"}, {"1.5", "precision", "1"},
+		{"[]", "minItems", "0"}, {"[]", "maxItems", "0"}, {"{}", "additionalProperties", "true"}, {"1", "enum", "[1, 2]"}, {"1", "or", `["integer", "string"]`},
+	}
+	pads := [][2]string{{"", ""}, {"", " "}, {" ", ""}, {" ", " "}, {"", "\t"}, {"\t", ""}, {"", "  "}}
+	for _, r := range rows {
+		for pi, pad := range pads {
+			for form := 0; form < 3; form++ {
+				for _, opt := range []bool{false, true} {
+					name := `"` + pad[0] + r.name + pad[1] + `"`
+					var text string
+					switch form {
+					case 0:
+						text = r.example + " // {" + name + ": " + r.value + "}"
+					case 1:
+						text = "{\n  \"k\": " + r.example + " // {" + name + ": " + r.value + "}\n}"
+					default:
+						if r.name == "type" || r.name == "or" || r.name == "enum" || r.name == "precision" {
+							continue
+						}
+						text = r.example + " // {or: [{type: \"" + map[string]string{"1": "integer", `"ab"`: "string", "1.5": "float", "[]": "array", "{}": "object"}[r.example] + "\", " + name + ": " + r.value + "}, {type: \"boolean\"}]}"
+					}
+					if !c.MineKey(fmt.Sprint("padded;", r.name, pi, form, opt)) {
+						continue
+					}
+					_, res := lib.Check(lib.SchemaSpec{Text: text, OptionalDef: opt})
+					c.Eval(true)
+					c.Inc("padded_rule_name_cases")
+					cs := paddedNameCase{text, opt}
+					switch {
+					case res.Panic != "":
+						c.Violate("padded-name;panic;"+text, fmt.Sprintf("schema %q: Check panics: %s", text, res.Panic), cs)
+					case pi == 0 && !res.OK:
+						c.Violate("padded-name;control-rejected;"+text, fmt.Sprintf("schema %q (rule name quoted, no blanks): Check rejects: %s", text, res), cs)
+					case pi > 0 && res.OK:
+						c.Violate("padded-name;lib=accept,ref=reject;"+text, fmt.Sprintf("schema %q: Check accepts the unknown rule name %s", text, name), cs)
+					}
+				}
+			}
+		}
+	}
+}
